@@ -51,7 +51,16 @@ type Explorer struct {
 	NShards  int
 	MaxExec  int
 	Deadline time.Time
-	St       *Stats
+	// YieldOnly: preempt the running thread only where it is parked at an explicit Yield
+	// (database read / commit gates), without a bound on the number of such preemptions:
+	// this enumerates every placement of one thread's gates among the other's.
+	YieldOnly bool
+	// Allow, if set, may veto alternative alt at point i of execution r (partial-order
+	// reduction supplied by the scenario, with its own correctness argument).
+	Allow func(r *vshim.Result, i int, alt int) bool
+	// OnExec, if set, sees every recorded execution (job-level oracles).
+	OnExec func(r *vshim.Result, x *Exec)
+	St     *Stats
 	top      int
 	stop     bool
 }
@@ -107,6 +116,9 @@ func (e *Explorer) explore(prefix []int, depth int) error {
 		x.Viol = append(x.Viol, fmt.Sprintf("no quiescence within the horizon of %d steps (livelock?)", r.Steps))
 	}
 	if depth > 0 || e.Shard == 0 {
+		if e.OnExec != nil {
+			e.OnExec(r, x)
+		}
 		e.record(r, x)
 	}
 	cost := 0
@@ -120,9 +132,18 @@ func (e *Explorer) explore(prefix []int, depth int) error {
 		for alt := 1; alt < len(p.Alts); alt++ {
 			c := cost
 			if preemption(p, alt) {
-				c++
+				if e.YieldOnly {
+					if !p.PrevYield {
+						continue
+					}
+				} else {
+					c++
+				}
 			}
 			if c > e.Bound {
+				continue
+			}
+			if e.Allow != nil && !e.Allow(r, i, alt) {
 				continue
 			}
 			if depth == 0 {
